@@ -651,7 +651,7 @@ Definition f_last (pol : upolicy) (obj : val) : res val :=
 (** array.py:77-92. *)
 Definition f_join (pol : upolicy) (left sep : val) : res val :=
   do items <- sequence_arg pol left;;
-  do sep' <- py_str pol sep;;
+  do sep' <- to_liquid_string pol sep;;
   do parts <- mapM (to_liquid_string pol) items;;
   Ok (VStr (match parts with
             | [] => []
@@ -729,19 +729,27 @@ Definition f_compact (pol : upolicy) (left : val) (key : option val) : res val :
       Ok (VList r)
   end.
 
-(** UniqFilter without key: [obj for i, obj in enumerate(left) if left.index(obj) == i]. *)
-Fixpoint seen_before (pol : upolicy) (prefix : list val) (obj : val) : res bool :=
-  match prefix with
-  | [] => Ok false
-  | x :: t => do b <- py_eq pol x obj;; if b then Ok true else seen_before pol t obj
+(** UniqFilter without key (uniq_filter.py): an item is kept unless one of the
+    items kept so far is the same object or equal to it by Liquid equality
+    ([item is obj or _eq(item, obj)], so 1 and true are different).  Object
+    identity of two undefineds is not tracked: under StrictUndefined (where
+    [_eq] would raise for two different objects) that pair is [outside]. *)
+Definition uniq_eq (pol : upolicy) (item obj : val) : res bool :=
+  match item, obj with
+  | VUndef _, VUndef _ => match pol with PStrict => outside | _ => liq_eq pol item obj end
+  | _, _ => liq_eq pol item obj
   end.
-Fixpoint uniq_go (pol : upolicy) (prefix rest : list val) : res (list val) :=
+Fixpoint seen_before (pol : upolicy) (kept : list val) (obj : val) : res bool :=
+  match kept with
+  | [] => Ok false
+  | x :: t => do b <- uniq_eq pol x obj;; if b then Ok true else seen_before pol t obj
+  end.
+Fixpoint uniq_go (pol : upolicy) (kept rest : list val) : res (list val) :=
   match rest with
-  | [] => Ok []
+  | [] => Ok kept
   | x :: t =>
-      do b <- seen_before pol prefix x;;
-      do r <- uniq_go pol (prefix ++ [x]) t;;
-      Ok (if b then r else x :: r)
+      do b <- seen_before pol kept x;;
+      uniq_go pol (if b then kept else kept ++ [x]) t
   end.
 Definition f_uniq (pol : upolicy) (left : val) : res val :=
   do items <- sequence_arg pol left;;
@@ -780,9 +788,10 @@ Definition f_slice (pol : upolicy) (v start len : val) : res val :=
       let ln := clamp_slice ln in
       let e := st + ln in
       let stop := if (st <? 0) && (0 <=? e) then None else Some e in
+      (* a negative start before the beginning of the sequence is out of range *)
       match v' with
-      | VStr s => Ok (VStr (py_slice s st stop))
-      | VList l => Ok (VList (py_slice l st stop))
+      | VStr s => Ok (VStr (if st <? - Z.of_nat (length s) then [] else py_slice s st stop))
+      | VList l => Ok (VList (if st <? - Z.of_nat (length l) then [] else py_slice l st stop))
       | _ => outside
       end
   end.
@@ -824,7 +833,7 @@ Definition apply_filter (pol : upolicy) (f : fname) (left : val)
   | FUpcase, [], [] => do s <- to_liquid_string pol left;; do u <- ascii_upper s;; Ok (VStr u)
   | FDowncase, [], [] => do s <- to_liquid_string pol left;; do u <- ascii_lower s;; Ok (VStr u)
   | FAppend, [a], [] =>
-      do s <- to_liquid_string pol left;; do t <- py_str pol a;; Ok (VStr (s ++ t))
+      do s <- to_liquid_string pol left;; do t <- to_liquid_string pol a;; Ok (VStr (s ++ t))
   | FPrepend, [a], [] =>
       do s <- to_liquid_string pol left;; do t <- to_liquid_string pol a;; Ok (VStr (t ++ s))
   | FEscape, [], [] => do s <- to_liquid_string pol left;; Ok (VStr (html_escape s))
